@@ -231,6 +231,8 @@ def _fragment_class(base, target, row_index, column):
         return "generic"
     row = base["cid"][row_index]
     kind = (row[0] or "").lower()
+    if kind == "d" and column == 1:
+        return "propname"
     if kind == "d" and column == 2:
         name = row[1]
         if name == "encoding":
@@ -257,6 +259,13 @@ def _composed_value(rng, base, target, row_index, column):
     fragment_class = _fragment_class(base, target, row_index, column)
     if fragment_class == "codec":
         return rng.choice(_codec_names())
+    if fragment_class == "propname":
+        # whatever a data format object of the tree under test calls its attributes, spelled like a property name
+        from cutplace import data
+
+        names = sorted(vars(data.DataFormat(base["cid"][0][2])))
+        name = rng.choice(names)
+        return rng.choice([name, name.lstrip("_"), name.lstrip("_").replace("_", " ")])
     fragments = FRAGMENTS[fragment_class]
     value = "".join(rng.choice(fragments) for _ in range(rng.randint(1, 5)))
     if fragment_class == "range":
@@ -290,7 +299,7 @@ def generate(seed, tier):
                 if target == "cid" and fault_rng.random() < 0.7:
                     # prefer the cells that are written in a language: values of properties, lengths, rules, examples
                     kind = (rows[row_index][0] or "").lower()
-                    column = fault_rng.choice({"d": [2], "f": [2, 4, 6, 6], "c": [3]}.get(kind, [column]))
+                    column = fault_rng.choice({"d": [1, 2, 2], "f": [2, 4, 6, 6], "c": [3]}.get(kind, [column]))
                 value = _composed_value(fault_rng, base, target, row_index, column)
             scenario["cells"].append({"target": target, "row": row_index, "column": column, "value": value})
     elif roll < 0.8:
